@@ -208,7 +208,7 @@ def check_case(case):
 
 def run(tier="quick", seed=0):
     r = common.run("bounded.C17", cases(tier, seed), bound="3 candidates x <=2 ballots (ties in first place), first seat; thorough <=4 x 4", rule=RULE,
-                   budget_s=150 if tier == "quick" else 1200)
+                   budget_s=600 if tier == "quick" else 1200)
     r["assumptions"] += ["A-LIB: random.choices(weights), random.sample, random.uniform and numpy.random.choice(p) follow their documented laws",
                          "multi-seat sequences are covered only through the first-seat law of each (reduced) profile in the enumeration"]
     return r
